@@ -487,6 +487,7 @@ macro_rules! leaky_lookup {
 
 leaky_cfg!(l_i8_u8_3, "i8/u8/3", i8, u8, 3, lookup = true);
 leaky_cfg!(l_u8_u8_8, "u8/u8/8", u8, u8, 8, lookup = true);
+leaky_cfg!(l_i8_u8_8, "i8/u8/8", i8, u8, 8, lookup = true);
 leaky_cfg!(l_i16_u8_8, "i16/u8/8", i16, u8, 8, lookup = true);
 leaky_cfg!(l_i32_u8_3, "i32/u8/3", i32, u8, 3, lookup = true);
 leaky_cfg!(l_u8_u16_12, "u8/u16/12", u8, u16, 12, lookup = true);
@@ -502,7 +503,15 @@ leaky_cfg!(l_i32_u32_32, "i32/u32/32", i32, u32, 32, lookup = false);
 
 fn leaky_inner(src: &mut Src, ctx: &mut Ctx) -> CaseResult {
     match src.below(14) {
-        0 => l_i8_u8_3(src, ctx),
+        // (the empty case must keep selecting i8/u8/3: committed witnesses rely on it)
+        0 => {
+            if src.bool() {
+                // signed symbols exactly as wide as the probability type, full precision: supports wider than half the type
+                l_i8_u8_8(src, ctx)
+            } else {
+                l_i8_u8_3(src, ctx)
+            }
+        }
         1 => l_u8_u8_8(src, ctx),
         2 => l_i16_u8_8(src, ctx),
         3 => l_i32_u8_3(src, ctx),
